@@ -17,8 +17,20 @@ def ncores():
 
 def _call(args):
     func, item = args
+    trace = os.environ.get("VERIF_TRACE_ITEMS")
+    if trace:
+        _nm = lambda it: getattr(it, "name", None) or (" ".join(str(getattr(x, "name", x)) for x in it) if isinstance(it, tuple) else repr(it))  # noqa: E731
+        import sys
+        import time
+
+        t0 = time.time()
+        sys.stderr.write("ITEM-START pid=%d %s\n" % (os.getpid(), _nm(item)[:200]))
+        sys.stderr.flush()
     try:
         r = func(item)
+        if trace:
+            sys.stderr.write("ITEM-END pid=%d %.1fs %s\n" % (os.getpid(), time.time() - t0, _nm(item)[:200]))
+            sys.stderr.flush()
     except BaseException as e:  # a crash of the driver itself: surfaced as check error
         p = Part()
         p.notes.append("driver crash on %r: %s" % (item, traceback.format_exc()[-1500:]))
